@@ -112,6 +112,8 @@ OPERATORS = [
     ("cursor-guard", "break", ["C15"], I, r"if \(i >= bucket->len\)", "if (i > bucket->len)", "off-by-one cursor guard"),
     ("cmp-clear", "break", ["C14"], B, r"(BUCKET_SEARCH\(i, cmp, self, key, )goto Done\);", r"\1{PyErr_Clear(); goto Done;});",
      "swallow a comparison exception"),
+    ("search-branch", "break", ["C01"], B, r"(BUCKET_SEARCH\(i, cmp, self, key, goto Done\);\n    if \(cmp) == 0\)", r"\1 != 0)",
+     "the found / absent branches of _bucket_set are swapped"),
     ("none-order", "break", ["C01"], OK_, r"\(lhs == Py_None \? \(rhs == Py_None \? 0 : -1\)", "(lhs == Py_None ? (rhs == Py_None ? 0 : 1)",
      "None is ordered last"),
     ("py-none-order", "break", ["C01"], CMP, r"            return -1\n", "            return 1\n", "None is ordered last (Python)"),
